@@ -35,6 +35,7 @@ namespace T
 inductive TOp
   | api (o : TP.Op)
   | land (ln ls : Nat → Nat)   -- processor i's goroutine exports `ln i` more spans / calls the exporter's Shutdown (`ls i`)
+  | settle                     -- the script is over and every goroutine has finished: everything outstanding arrives
 
 structure TSt where
   st : TP.St
@@ -61,14 +62,17 @@ def landS (g : TSt) (ls : Nat → Nat) (i : Nat) : Nat := min (ls i) (g.pendS i)
 def landProc (dn ds : Nat) (p : TP.PS) : TP.PS :=
   { p with queued := p.queued - dn, cnt := { p.cnt with n := p.cnt.n + dn, s := p.cnt.s + ds } }
 
+def landStep (g : TSt) (ln ls : Nat → Nat) : TSt :=
+  { st := { g.st with pool := fun i => landProc (landN g ln i) (landS g ls i) (g.st.pool i) },
+    pendS := fun i => g.pendS i - landS g ls i }
+
 def tstep (g : TSt) : TOp → TSt × Res
   | .api o =>
     ({ st := (TP.step g.st o).1,
        pendS := fun i => if racedHere g.st o i then 1 - min (chK o i) 1 else g.pendS i },
      (TP.step g.st o).2)
-  | .land ln ls =>
-    ({ st := { g.st with pool := fun i => landProc (landN g ln i) (landS g ls i) (g.st.pool i) },
-       pendS := fun i => g.pendS i - landS g ls i }, .none)
+  | .land ln ls => (landStep g ln ls, .none)
+  | .settle => (landStep g (fun i => (g.st.pool i).queued) g.pendS, .none)
 
 def trunFrom (g : TSt) : List TOp → List TP.Obs
   | [] => []
@@ -96,6 +100,22 @@ def tcheckStep (kinds : List TP.PKind) (r : Spec.TP.Ref) (op : TOp) (prev cur : 
             | _ => (cur i).s == (prev i).s)
        a := !(res == .none && allBelow kinds.length fun i => (cur i).f == (prev i).f)
        t := res == .crash }, r)
+  | .settle =>
+    -- "shut down exactly once", the at-least-once half: once everything has settled the exporter of every stock
+    -- processor that was taken out of service — also by a Shutdown with a done context — has seen exactly one
+    -- Shutdown (no `≤`), its drain has exported everything delivered to it; processors still in service none
+    ({ m := !(allBelow kinds.length fun i =>
+            (cur i).a == (prev i).a && (cur i).e == (prev i).e &&
+            (match TP.kindOf kinds i with
+             | .batchRec => (cur i).n == (if r.dead i then r.deliv i else (prev i).n)
+             | .simpleRec => (cur i).n == r.deliv i
+             | _ => (cur i).n == (prev i).n))
+       o := !(allBelow kinds.length fun i =>
+            match TP.kindOf kinds i with
+            | .simpleRec | .batchRec => (cur i).s == (if r.dead i then 1 else 0)
+            | _ => (cur i).s == (prev i).s)
+       a := !(res == .none && allBelow kinds.length fun i => (cur i).f == (prev i).f)
+       t := res == .crash }, r)
 
 def tcheckFrom (kinds : List TP.PKind) (r : Spec.TP.Ref) (prev : Nat → Cnt) : List TOp → List TP.Obs → Spec.Fails
   | op :: ops, o :: obs =>
@@ -114,6 +134,7 @@ namespace L
 inductive LOp
   | api (o : LP.Op)
   | land (l : Nat → Nat)    -- the export goroutine of batch processor i exports `l i` pending records
+  | settle (l : Nat → Nat)  -- the script is over: what was still in the export buffer (`l i` records) has arrived
 
 structure LSt where
   st : LP.St
@@ -132,14 +153,17 @@ def landProc (m : Nat) (p : LP.PS) : LP.PS :=
 /-- how many records really arrive: not more than asked, than were attempted, than are pending -/
 def landed (g : LSt) (l : Nat → Nat) (i : Nat) : Nat := min (min (l i) (g.att i)) (g.st.pool i).queued
 
+def landStepL (g : LSt) (l : Nat → Nat) : LSt :=
+  { st := { g.st with pool := fun i => landProc (landed g l i) (g.st.pool i) },
+    att := fun i => g.att i - landed g l i }
+
 def lstep (g : LSt) : LOp → LSt × Res
   | .api o =>
     ({ st := (LP.step g.st o).1,
        att := if attempts g.st.stopped o then fun i => ((LP.step g.st o).1.pool i).queued else g.att },
      (LP.step g.st o).2)
-  | .land l =>
-    ({ st := { g.st with pool := fun i => landProc (landed g l i) (g.st.pool i) },
-       att := fun i => g.att i - landed g l i }, .none)
+  | .land l => (landStepL g l, .none)
+  | .settle l => (landStepL g l, .none)
 
 def lrunFrom (g : LSt) : List LOp → List LP.Obs
   | [] => []
@@ -168,6 +192,20 @@ def lcheckStep (kinds : List LP.LKind) (g : LRef) (op : LOp) (prev cur : Nat →
        o := !(allBelow kinds.length fun i => (cur i).s == (prev i).s)
        a := !(res == .none && allBelow kinds.length fun i => (cur i).f == (prev i).f)
        t := res == .crash }, g)
+  | .settle _ =>
+    -- as `land`, and "shut down exactly once" restated for the settled system: every processor / exporter has seen
+    -- exactly one Shutdown iff the provider's Shutdown has been called (with whatever context)
+    ({ m := !(allBelow kinds.length fun i =>
+            (cur i).a == (prev i).a && (cur i).e == (prev i).e &&
+            (match LP.kindOf kinds i with
+             | .batchRec => (prev i).n ≤ (cur i).n && (cur i).n ≤ g.hand i
+             | _ => (cur i).n == (prev i).n))
+       o := !(allBelow kinds.length fun i =>
+            match LP.kindOf kinds i with
+            | .recd | .simpleRec | .batchRec => (cur i).s == (if g.ref.shut then 1 else 0)
+            | _ => (cur i).s == 0)
+       a := !(res == .none && allBelow kinds.length fun i => (cur i).f == (prev i).f)
+       t := res == .crash }, g)
 
 def lcheckFrom (kinds : List LP.LKind) (g : LRef) (prev : Nat → Cnt) : List LOp → List LP.Obs → Spec.Fails
   | op :: ops, o :: obs =>
@@ -186,6 +224,7 @@ namespace M
 inductive MOp
   | api (o : MP.Op)
   | land (l : Nat → Nat)    -- the run loop of periodic reader i performs `l i` Exports started by raced ForceFlushes
+  | settle (l : Nat → Nat)  -- the script is over: Exports still under way (`l i`) have happened
 
 structure MSt where
   st : MP.St
@@ -204,6 +243,10 @@ def landR (m : Nat) (r : MP.RS) : MP.RS :=
   | .periodic => { r with cnt := { r.cnt with n := r.cnt.n + m } }
   | .manual => r
 
+def landStepM (g : MSt) (l : Nat → Nat) : MSt :=
+  { st := { g.st with pool := fun i => landR (min (l i) (g.pend i)) (g.st.pool i) },
+    pend := fun i => g.pend i - min (l i) (g.pend i) }
+
 def mstep (g : MSt) : MOp → MSt × Res
   | .api o =>
     ({ st := (MP.step g.st o).1,
@@ -211,9 +254,8 @@ def mstep (g : MSt) : MOp → MSt × Res
          | .shutdown _ => fun _ => 0            -- Shutdown waits for the run loop: nothing can arrive afterwards
          | _ => fun i => g.pend i + lateExport g.st o i },
      (MP.step g.st o).2)
-  | .land l =>
-    ({ st := { g.st with pool := fun i => landR (min (l i) (g.pend i)) (g.st.pool i) },
-       pend := fun i => g.pend i - min (l i) (g.pend i) }, .none)
+  | .land l => (landStepM g l, .none)
+  | .settle l => (landStepM g l, .none)
 
 def mrunFrom (g : MSt) : List MOp → List MP.Obs
   | [] => []
@@ -244,6 +286,19 @@ def mcheckStep (kinds : List MP.RKind) (g : MRef) (op : MOp) (prev cur : Nat →
              | .periodic => (prev i).n ≤ (cur i).n && (cur i).n ≤ g.cap && (!g.ref.shut || (cur i).n == (prev i).n)
              | .manual => (cur i).n == (prev i).n))
        o := !(allBelow kinds.length fun i => (cur i).s == (prev i).s)
+       a := !(res == .none && allBelow kinds.length fun i => (cur i).f == (prev i).f)
+       t := res == .crash }, g)
+  | .settle _ =>
+    -- as `land`, and: every periodic reader's exporter has seen exactly one Shutdown iff Shutdown has been called
+    ({ m := !(allBelow kinds.length fun i =>
+            (cur i).a == (prev i).a && (cur i).e == (prev i).e &&
+            (match MP.kindOf kinds i with
+             | .periodic => (prev i).n ≤ (cur i).n && (cur i).n ≤ g.cap && (!g.ref.shut || (cur i).n == (prev i).n)
+             | .manual => (cur i).n == (prev i).n))
+       o := !(allBelow kinds.length fun i =>
+            match MP.kindOf kinds i with
+            | .periodic => (cur i).s == (if g.ref.shut then 1 else 0)
+            | .manual => (cur i).s == 0)
        a := !(res == .none && allBelow kinds.length fun i => (cur i).f == (prev i).f)
        t := res == .crash }, g)
 
